@@ -364,11 +364,36 @@ def check(src, rep):
         for n in ast.walk(src.tree(m)):
             if isinstance(n, ast.Call) and isinstance(n.func, ast.Attribute) and n.func.attr in ("put_nowait", "put") and "queue" in ast.unparse(n.func.value):
                 puts.append((m, n.lineno))
-    mr_lines = set()
-    for c in (PP, MP):
-        f = c.methods["message_received"]
-        mr_lines |= set(range(f.node.lineno, f.node.end_lineno + 1))
-    bad_puts = [x for x in puts if not (x[0] == MOD and x[1] in mr_lines)]
+    # functions from which the queue may be written: message_received of the two protocols, and helpers that are called from nowhere else
+    fdefs = []  # (module, FunctionDef)
+    for m in src.text:
+        if m.startswith("@"):
+            continue
+        for n in ast.walk(src.tree(m)):
+            if isinstance(n, (ast.FunctionDef, ast.AsyncFunctionDef)):
+                fdefs.append((m, n))
+
+    def enclosing(m, line):
+        best = None
+        for fm, fd in fdefs:
+            if fm == m and fd.lineno <= line <= fd.end_lineno and (best is None or fd.lineno >= best.lineno):
+                best = fd
+        return best
+    allowed = {id(c.methods["message_received"].node) for c in (PP, MP)}
+    changed = True
+    while changed:
+        changed = False
+        for fm, fd in fdefs:
+            if id(fd) in allowed or fd.name.startswith("__"):
+                continue
+            sites = [(m, n.lineno) for m in src.text if not m.startswith("@") for n in ast.walk(src.tree(m))
+                     if isinstance(n, ast.Call) and ((isinstance(n.func, ast.Attribute) and n.func.attr == fd.name) or (isinstance(n.func, ast.Name) and n.func.id == fd.name))]
+            refs = [n for m in src.text if not m.startswith("@") for n in ast.walk(src.tree(m))
+                    if (isinstance(n, ast.Attribute) and n.attr == fd.name) or (isinstance(n, ast.Name) and n.id == fd.name)]
+            if sites and len(refs) == len(sites) and all((e := enclosing(m, ln)) is not None and id(e) in allowed for m, ln in sites):
+                allowed.add(id(fd))
+                changed = True
+    bad_puts = [x for x in puts if (e := enclosing(x[0], x[1])) is None or id(e) not in allowed]
     if outside:
         rep.violation("R5", f"{MOD}", "message_received-caller", "message_received is called from outside data_received", src.file(outside[0][0]), outside[0][1])
     elif bad_puts:
